@@ -288,6 +288,8 @@ class NetInterp:
             return self.make_tuple(n, kids(n), env, fn, True)
         if k == "CallExpr" and is_std(n, ("get",)):
             return self.load(self.lcell(n, env, fn), n, fn)
+        if k == "CallExpr" and is_std(n, ("tuple_cat",)):
+            return self.tuple_cat(n, env, fn)
         if k == "InitListExpr" and not is_cs_ty(n.get("ty")) and self.record_of(n.get("ty")) is not None:
             return self.aggregate(n, self.record_of(n.get("ty")), env, fn)
         if k in CONSTRUCTS or k == "InitListExpr":
@@ -320,7 +322,7 @@ class NetInterp:
                     raise dtable.Undecidable("%s: lambda captures something that is not a local of the network function (%s)"
                                              % (fn.nloc(n), c.get("name")))
                 caps[c["id"]] = cell if c.get("byref") else [copy_val(cell[0])]
-            return ("lambda", caps)
+            return ("lambda", caps, n.get("fn"))         # fn: the call operator (absent for a generic lambda)
         if k == "ConditionalOperator":
             c = num(self.value(kids(n)[0], env, fn))
             if c is None:
@@ -391,6 +393,11 @@ class NetInterp:
                         return self.wrap(len(v[1]), n.get("ty"), fn, n)
                     return ("aptr", v[1], len(v[1]) if name in ("end", "cend") else 0)
                 self.not_understood(n, fn)
+            if is_std(n, ("apply",)) and n["k"] == "CallExpr":
+                st, ret = self.apply_call(n, env, fn, self._out)
+                if st is None and ret is not None:
+                    return ret
+                raise dtable.Undecidable("%s: call of %s gives no value" % (fn.nloc(n), n["callee"]["qname"]))
             callee, base = None, None
             if n["k"] == "CallExpr" and self.is_helper(n["callee"]):
                 callee = self.tu.by_did[n["callee"]["did"]]
@@ -572,6 +579,62 @@ class NetInterp:
                 cells[i] = [self.field_val(self.value(a, env, fn), t, a, fn)]
         return ("agg", full, cells, frozenset(refs))
 
+    def tuple_cat(self, n, env, fn):
+        """std::tuple_cat(t0, t1, ...): the fields of the operands in order; a field of reference type keeps designating
+        the same object, every other field is a copy"""
+        tf = tuple_fields(n.get("ty"))
+        if tf is None or tf[0] != "std::tuple" or any(a is None or a["k"] == "DefaultArg" for a in kids(n)):
+            self.not_understood(n, fn)
+        src = []
+        for a in kids(n):
+            v = self.value(a, env, fn)
+            if not is_tuple(v) or sorted(v[2]) != list(range(len(v[2]))):
+                self.not_understood(n, fn)
+            src += [(v[2][i], i in v[3], a) for i in range(len(v[2]))]
+        if len(src) != len(tf[1]):
+            self.not_understood(n, fn)
+        cells, refs = {}, set()
+        for i, (t, (cell, isref, a)) in enumerate(zip(tf[1], src)):
+            if is_ref_ty(t) != isref:
+                self.not_understood(n, fn)
+            if isref:
+                refs.add(i)
+                cells[i] = cell
+            else:
+                cells[i] = [self.field_val(self.load(cell, a, fn), t, n, fn)]
+        return ("agg", bare_ty(n["ty"]), cells, frozenset(refs))
+
+    def apply_call(self, n, env, fn, out):
+        """std::apply(f, t): f is called once with the fields of the pair / tuple t as arguments, in their order.
+        returns (status, return value)"""
+        args = kids(n)
+        if len(args) != 2 or any(a is None or a["k"] == "DefaultArg" for a in args):
+            self.not_understood(n, fn)
+        f, t = self.value(args[0], env, fn), self.value(args[1], env, fn)
+        if f[0] != "lambda" or not is_tuple(t) or sorted(t[2]) != list(range(len(t[2]))):
+            raise dtable.Undecidable("%s: std::apply of something else than a lambda to a pair / tuple: %s"
+                                     % (fn.nloc(n), dtable.describe(n)))
+        callee = self.tu.by_did.get(f[2]) if len(f) > 2 and f[2] is not None else None
+        if callee is None or callee.body is None:
+            raise dtable.Undecidable("%s: the body of the lambda that std::apply calls is not in the IR (the instantiated call "
+                                     "operator of a generic lambda is not extracted): %s" % (fn.nloc(n), dtable.describe(n)))
+        site = fn.nloc(n)
+        if len(t[2]) != len(callee.params):
+            raise dtable.Undecidable("%s: arity mismatch calling %s" % (site, callee.qname))
+        new = dict(f[1])
+        for i, p in enumerate(callee.params):
+            cell = t[2][i]
+            if is_ref_ty(p.get("ty")):
+                # std::get<I>(t) is the object a reference field designates, or the field of t itself
+                self.load(cell, args[1], fn)
+                new[p["did"]] = cell
+                continue
+            v = self.load(cell, args[1], fn)
+            if v[0] == "slot":
+                raise dtable.Undecidable("%s: an element is passed by value to %s (%s works on a copy)" % (site, callee.qname, p["name"]))
+            new[p["did"]] = [copy_val(decay(v))]
+        return self.run_body(callee, new, out, site)
+
     def assign_tuple(self, n, lhs, rhs, env, fn):
         """pair / tuple = pair / tuple: field by field in order, through the reference fields of std::tie"""
         tv, rv = self.value(lhs, env, fn), self.value(rhs, env, fn)
@@ -665,6 +728,8 @@ class NetInterp:
                         raise dtable.Undecidable("%s: lambda body is not in the IR" % fn.nloc(n))
                     st, _ = self.invoke(callee, args[1:], env, fn, out, fn.nloc(n), base=obj[1])
                     return st
+            if k == "CallExpr" and is_std(n, ("apply",)):
+                return self.apply_call(n, env, fn, out)[0]
             if k == "CallExpr" and c.get("qname", "").startswith("tlx::"):
                 if not self.is_helper(c):
                     raise dtable.Undecidable("%s: callee %s has no body in the IR" % (fn.nloc(n), c["qname"]))
